@@ -35,6 +35,8 @@ pub fn resolve_assert(
         report.error_span(
             "assertion failed",
             ast_assert.condition_expr.span());
+
+        return Ok(asm::ResolutionState::Unresolved);
     }
     
     Ok(asm::ResolutionState::Resolved)
